@@ -113,7 +113,7 @@ def build_system(spec):
         if k in spec.get("zero_flows", []):  # an all-zero flow still takes part in the balance (and narrows the common dims)
             fn = lambda lab: 0.0
         v = S.ndarray_for(letters, ITEMS, fn, "C")
-        name = f"F{k+1}"
+        name = (spec.get("flow_names") or {}).get(str(k), f"F{k+1}")
         # "alias_keys": the flows dict is keyed by short aliases that differ from the flows' names
         flows[f"K{k+1}" if spec.get("alias_keys") else name] = flodym.Flow(from_process=procs[PROC_NAMES[src]], to_process=procs[PROC_NAMES[dst]], name=name, dims=ds, values=v)
         mflows.append((name, src, dst, R.build(letters, ITEMS, fn)))
@@ -466,8 +466,9 @@ def run_flows_case(spec, states, exceptions, raise_error, verbose):
     mfa, model = build_system(spec)
     tol = default_tol(model)
     expected = set()
+    fnames = [(spec.get("flow_names") or {}).get(str(k), f"F{k+1}") for k in range(len(spec["flows"]))]
     for k, (fl, stt) in enumerate(zip(spec["flows"], states)):
-        name = f"F{k+1}"
+        name = fnames[k]
         f = mfa.flows[f"K{k+1}" if spec.get("alias_keys") else name]
         idx = tuple((k + 1) % n for n in f.values.shape)
         if stt == "nan":
@@ -499,8 +500,9 @@ def run_flows_case(spec, states, exceptions, raise_error, verbose):
     for msg in recs:
         head = msg.split("\n")[0]  # (verbose mode lists the offending items on further lines)
         for k in range(len(spec["flows"])):
-            if _re.search(rf"(?<![A-Za-z0-9_])[FK]{k+1}(?![A-Za-z0-9_])", head):  # (named by its name or by its key)
-                flagged.add(f"F{k+1}")
+            pat = rf"[FK]{k+1}" if fnames[k] == f"F{k+1}" else rf"(?:{_re.escape(fnames[k])}|K{k+1})"
+            if _re.search(rf"(?<![A-Za-z0-9_]){pat}(?![A-Za-z0-9_])", head):  # (named by its name or by its key)
+                flagged.add(fnames[k])
     if flagged != expected:
         return fail("flagged-set", f"flagged {sorted(flagged)} (messages {recs}), expected exactly {sorted(expected)}")
     if not expected and recs:
@@ -525,6 +527,20 @@ def run_flows(u, res):
         nf = len(spec["flows"])
         names = [f"F{k+1}" for k in range(nf)] + PROC_NAMES[: spec["nproc"]]
         exc_sets = [list(c) for r in range(0, 3) for c in itertools.combinations(names, r)]
+        # the same system with its FIRST flow named like a process it does not touch (a name is a name: excepting it
+        # excepts that flow and the flows touching that process, nothing else)
+        untouched = [p for i, p in enumerate(PROC_NAMES[: spec["nproc"]]) if i not in spec["flows"][0][:2]]
+        if untouched and nf >= 2:
+            spec2 = dict(spec, flow_names={"0": untouched[-1]})
+            for states in itertools.product(("clean", "nan", "neg-big"), repeat=nf):
+                for exc in [list(c) for r in range(0, 3) for c in itertools.combinations(["F2"] + PROC_NAMES[: spec["nproc"]], r)]:
+                    for raise_error in (False, True):
+                        oc, f = run_flows_case(spec2, list(states), exc, raise_error, False)
+                        res["evals"] += 1
+                        res["nontrivial"] += 1
+                        res["outcomes"][oc] = res["outcomes"].get(oc, 0) + 1
+                        if f:
+                            res["fails"].append(f)
         for states in itertools.product(FLOW_STATES, repeat=nf):
             if nf == 3 and sum(s != "clean" for s in states) > 2:
                 continue
